@@ -211,7 +211,7 @@ def main():
             elif c['transport'] == 'rest':
                 one(c, lambda c: run_sync(w, rclient, mod, c))
 
-        acases = [c for c in pl['cases'] if c['transport'] == 'grpc_asyncio']
+        acases = [c for c in pl['cases'] if c['transport'] == 'grpc_asyncio' and not pl.get('ads')]
         if acases:
             async def amain():
                 amod, aclient, ach = rt.grpc_client(pl['module'], 'things', 'Things', srv.target, w.chlog, asyncio_=True)
